@@ -52,6 +52,56 @@ PANIC_API = [
     ("std::time::Duration::from_secs_f64", None, "Duration::from_secs_f64"),
     ("std::time::Duration::from_secs_f32", None, "Duration::from_secs_f32"),
     ("std::iter::Iterator::step_by", None, "Iterator::step_by"),
+    ("std::time::Duration::new", None, "Duration::new"),
+    ("std::time::Duration::mul_f64", None, "Duration::mul_f64"),
+    ("std::time::Duration::mul_f32", None, "Duration::mul_f32"),
+    ("std::time::Duration::div_f64", None, "Duration::div_f64"),
+    ("std::time::Duration::div_f32", None, "Duration::div_f32"),
+    ("core::slice::<impl [T]>::copy_within", None, "slice::copy_within"),
+    ("core::slice::<impl [T]>::rchunks", None, "slice::rchunks"),
+    ("core::slice::<impl [T]>::chunks_mut", None, "slice::chunks_mut"),
+    ("core::slice::<impl [T]>::select_nth_unstable", None, "slice::select_nth_unstable"),
+    ("core::slice::<impl [T]>::split_first_chunk", None, None),
+    ("core::slice::<impl [T]>::as_chunks", None, None),
+    ("std::vec::Vec::<T, A>::splice", None, "Vec::splice"),
+    ("std::vec::Vec::<T, A>::extend_from_within", None, "Vec::extend_from_within"),
+    ("std::vec::Vec::<T, A>::swap", None, "Vec::swap"),
+    ("std::collections::VecDeque::<T, A>::swap", None, "VecDeque::swap"),
+    ("std::collections::VecDeque::<T, A>::insert", None, "VecDeque::insert"),
+    ("std::collections::VecDeque::<T, A>::drain", None, "VecDeque::drain"),
+    ("std::collections::VecDeque::<T, A>::split_off", None, "VecDeque::split_off"),
+    ("core::char::methods::<impl char>::from_digit", None, "char::from_digit"),
+    ("core::char::methods::<impl char>::to_digit", None, "char::to_digit"),
+    ("core::str::<impl str>::split_at_mut", None, "str::split_at_mut"),
+    ("std::cell::RefCell::<T>::replace", None, "RefCell::replace"),
+    ("std::cell::RefCell::<T>::swap", None, "RefCell::swap"),
+    ("std::rc::Rc::<T, A>::unwrap_or_clone", None, None),
+    ("std::thread::JoinHandle::<T>::join", None, None),
+    ("std::sync::mpsc::Receiver::<T>::recv", None, None),
+    # third-party items with a documented panic
+    ("rand::Rng::gen_range", None, "Rng::gen_range"),
+    ("rand::Rng::random_range", None, "Rng::random_range"),
+    ("rand::Rng::gen_ratio", None, "Rng::gen_ratio"),
+    ("rand::Rng::gen_bool", None, "Rng::gen_bool"),
+    ("http::HeaderValue::from_static", None, "HeaderValue::from_static"),
+    ("http::header::HeaderName::from_static", None, "HeaderName::from_static"),
+    ("http::Uri::from_static", None, "Uri::from_static"),
+    ("http::HeaderMap::<T>::with_capacity", None, "HeaderMap::with_capacity"),
+    ("http::HeaderMap::<T>::insert", None, None),   # panics only past 32768 distinct headers
+    ("generic_array::GenericArray::<T, N>::from_mut_slice", None, "GenericArray::from_mut_slice"),
+    ("generic_array::GenericArray::<T, N>::from_exact_iter", None, None),
+    ("chrono::DateTime::<Tz>::from_timestamp_millis", None, None),
+    ("chrono::NaiveDate::from_ymd", None, "NaiveDate::from_ymd"),
+    ("chrono::NaiveTime::from_hms", None, "NaiveTime::from_hms"),
+    ("chrono::NaiveDateTime::from_timestamp", None, "NaiveDateTime::from_timestamp"),
+    ("chrono::TimeZone::timestamp", None, "TimeZone::timestamp"),
+    ("chrono::TimeZone::ymd", None, "TimeZone::ymd"),
+    ("chrono::Duration::seconds", None, "chrono::Duration::seconds"),
+    ("chrono::Duration::milliseconds", None, "chrono::Duration::milliseconds"),
+    ("chrono::Duration::days", None, "chrono::Duration::days"),
+    ("serde_json::Value::take", None, None),
+    ("futures::future::Fuse::<Fut>::terminated", None, None),
+    ("futures::channel::oneshot::Receiver::<T>::try_recv", None, None),
     ("std::sync::Mutex::<T>::lock", None, None),  # poison handled via unwrap
     ("std::string::String::from_utf16", None, None),
 ]
